@@ -28,9 +28,9 @@ REQUIRED = ["identities_checked", "assorter:plurality", "assorter:supermajority"
             "elections_with_unfindable_cards", "elections_with_missing_contest_mvr", "style_on", "style_off",
             "identities_rechecked_after_cvrs_revised_in_place", "population_checked",
             "population_data_compared_with_per_card_values", "pool_dict_restricted_to_audited_contests",
-            "null_mean_of_the_configured_test_checked"]
-ASSUMPTIONS = ["pool labelling coherent (a batch is pooled or not); add_pool_contests applied under style (documented "
-               "precondition of ONEAudit)", "A_i is computed by reference assorters written from the definitions "
+            "null_mean_of_the_configured_test_checked", "elections_with_a_batch_holding_pooled_and_unpooled_cards"]
+ASSUMPTIONS = ["add_pool_contests applied under style (documented precondition of ONEAudit); a batch label may be shared by "
+               "pooled and unpooled cards: the batch mean is then over the flagged cards", "A_i is computed by reference assorters written from the definitions "
                "(cross-checked against the real assorters by C02 and C14)"]
 N_CASES = {"quick": 25600, "thorough": 204800}
 
@@ -84,6 +84,11 @@ def run_case(es, rec):
         rec.count("elections_with_phantoms")
     if pooled:
         rec.count("elections_with_pooled_cards")
+        flags = {}
+        for c in sim.cvr_list:
+            flags.setdefault(c.tally_pool, set()).add(bool(c.pool))
+        if any(len(v) == 2 for v in flags.values()):
+            rec.count("elections_with_a_batch_holding_pooled_and_unpooled_cards")
     if pooled_ph:
         rec.count("elections_with_pooled_phantoms")
     if any(m["kind"] == "phantom" for m in es["mvrs"].values()):
